@@ -113,7 +113,11 @@ where
     fn consume(&mut self, ctx: &mut Self::Ctx, packet: &packet::Packet<'_>) {
         if !self.is_continuous(packet) {
             self.stream_consumer.continuity_error(ctx);
-            self.state = PesState::IgnoreRest;
+            // if the stream has not started yet, stay in PesState::Begin so that start_stream()
+            // is still signalled before the first begin_packet(),
+            if self.state != PesState::Begin {
+                self.state = PesState::IgnoreRest;
+            }
         }
         self.ccounter = Some(packet.continuity_counter());
         if packet.payload_unit_start_indicator() {
